@@ -191,19 +191,17 @@ func c19R2(c *engine.Ctx) {
 		n++
 		var eq ssa.Instruction
 		var eqArgs []ssa.Value
+		var dg *digestExpr
 		engine.GuardedBy(r, func(k engine.Cmp) bool {
 			if k.Op != token.EQL || eq != nil || k.Via == nil {
 				return false
 			}
 			for _, a := range []ssa.Value{k.X, k.Y} {
-				if len(engine.FindCallBack(a, "crypto/hmac.New")) > 0 {
-					if k.Via != nil {
-						eq = k.Via
-					} else if in, ok := k.X.(ssa.Instruction); ok {
-						eq = in
-					}
+				// the HMAC may be computed in place or by a helper of the package
+				if d, isD := digestOf(a, "crypto/hmac.New"); isD {
+					eq, dg = k.Via, d
 					eqArgs = []ssa.Value{k.X, k.Y}
-					return eq != nil
+					return true
 				}
 			}
 			return false
@@ -213,37 +211,22 @@ func c19R2(c *engine.Ctx) {
 			continue
 		}
 		// one side: Sum of hmac.New(sha256.New, secret)
-		var mac *ssa.Call
-		for _, a := range eqArgs {
-			for _, h := range engine.FindCallBack(a, "crypto/hmac.New") {
-				mac = h
-			}
-		}
-		okMac := mac != nil && strings.Contains(engine.Describe(mac.Common().Args[0]), "crypto/sha256.New") &&
-			engine.Describe(mac.Common().Args[1]) == "p:"+engine.ParamName(fn.Params[2])
+		okMac :=len(dg.ctorArgs) == 2 && dg.ctorArgs[0] != nil && dg.ctorArgs[1] != nil && strings.Contains(engine.Describe(dg.ctorArgs[0]), "crypto/sha256.New") &&
+			engine.Describe(dg.ctorArgs[1]) == "p:"+engine.ParamName(fn.Params[2])
 		c.Check(okMac, "C19.R2", "readServerHello/mac-key", r.Pos(), "compared digest must be HMAC-SHA256 keyed with the secret parameter")
-		if mac == nil {
-			continue
-		}
 		// writes into the mac: clientRandom first, then the packet; both dominate the comparison
-		var writes []ssa.CallInstruction
-		for _, call := range engine.Calls(fn) {
-			if call.Common().IsInvoke() && call.Common().Method.Name() == "Write" && call.Common().Value == ssa.Value(mac) {
-				writes = append(writes, call)
-			}
-		}
-		okWrites := len(writes) == 2 && engine.Dominates(writes[0], writes[1]) && engine.Dominates(writes[1], eq) &&
-			strings.HasPrefix(engine.Describe(writes[0].Common().Args[0]), "p:"+engine.ParamName(fn.Params[1])) &&
-			strings.Contains(engine.Describe(writes[1].Common().Args[0]), "(*bytes.Buffer).Bytes")
+		okWrites := len(dg.inputs) == 2 && engine.Dominates(dg.at, eq) &&
+			strings.HasPrefix(engine.Describe(dg.inputs[0]), "p:"+engine.ParamName(fn.Params[1])) &&
+			strings.Contains(engine.Describe(dg.inputs[1]), "(*bytes.Buffer).Bytes")
 		c.Check(okWrites, "C19.R2", "readServerHello/mac-input", r.Pos(), "MAC input must be clientRandom followed by the received packet, both before the comparison")
 		// the digest bytes inside the packet are zeroed before hashing: a copy into packet[a:b] from a zero array dominates the packet write
 		okZero := false
-		if len(writes) == 2 {
+		if len(dg.inputs) == 2 {
 			for _, call := range engine.CallsTo(fn, false, "builtin.copy") {
 				dst := engine.Describe(call.Common().Args[0])
 				src := engine.Unwrap(call.Common().Args[1])
 				if sl, ok := src.(*ssa.Slice); ok {
-					if a, ok := sl.X.(*ssa.Alloc); ok && zeroAlloc(a) && strings.Contains(dst, "(*bytes.Buffer).Bytes") && engine.Dominates(call, writes[1]) {
+					if a, ok := sl.X.(*ssa.Alloc); ok && zeroAlloc(a) && strings.Contains(dst, "(*bytes.Buffer).Bytes") && engine.Dominates(call, dg.at) {
 						okZero = true
 					}
 				}
@@ -265,20 +248,14 @@ func c19R2(c *engine.Ctx) {
 			}
 		}
 		// the received digest must survive until the comparison: the MAC must not be summed into its buffer
-		for _, call := range engine.Calls(fn) {
-			cc := call.Common()
-			if cc.IsInvoke() && cc.Method.Name() == "Sum" && cc.Value == ssa.Value(mac) {
-				arg := cc.Args[0]
-				alias := false
-				for _, a := range eqArgs {
-					if sl, ok := engine.Unwrap(a).(*ssa.Slice); ok {
-						if al, ok := sl.X.(*ssa.Alloc); ok && engine.DependsOn(arg, al) {
-							alias = true
-						}
+		if arg := dg.sumArg; arg == nil {
+			okDigest = false // Sum into a buffer the rule cannot trace
+		} else if !engine.IsNil(arg) {
+			for _, a := range eqArgs {
+				if sl, ok := engine.Unwrap(a).(*ssa.Slice); ok {
+					if al, ok := sl.X.(*ssa.Alloc); ok && engine.DependsOn(arg, al) {
+						okDigest = false
 					}
-				}
-				if !engine.IsNil(arg) && alias {
-					okDigest = false
 				}
 			}
 		}
